@@ -95,37 +95,37 @@ Qed.
 
 (** * cluster chains *)
 (** ** a chain the follower reports complete never visits a cluster twice *)
-Lemma chain_go_fuel_indep f1 : forall f2 t fat i l1 l2,
-  chain_go f1 t fat i = (l1, true) -> chain_go f2 t fat i = (l2, true) -> l1 = l2.
+Lemma chain_go_fuel_indep f1 : forall f2 t dm fat i l1 l2,
+  chain_go f1 t dm fat i = (l1, true) -> chain_go f2 t dm fat i = (l2, true) -> l1 = l2.
 Proof.
-  induction f1 as [|g1 IH]; intros f2 t fat i l1 l2 H1 H2; [discriminate|]. destruct f2 as [|g2]; [discriminate|].
+  induction f1 as [|g1 IH]; intros f2 t dm fat i l1 l2 H1 H2; [discriminate|]. destruct f2 as [|g2]; [discriminate|].
   cbn [chain_go] in H1, H2. destruct ((i <? Gen.MIN_DATA_CLUSTER t) || (lenZ fat <=? i)); [discriminate|]. cbv zeta in H1, H2.
-  destruct (is_data t (nthZ fat i)).
-  - destruct (chain_go g1 t fat (nthZ fat i)) as [r1 o1] eqn:E1. destruct (chain_go g2 t fat (nthZ fat i)) as [r2 o2] eqn:E2.
+  destruct (is_data t dm (nthZ fat i)).
+  - destruct (chain_go g1 t dm fat (nthZ fat i)) as [r1 o1] eqn:E1. destruct (chain_go g2 t dm fat (nthZ fat i)) as [r2 o2] eqn:E2.
     inversion H1; inversion H2; subst. f_equal. eapply IH; eassumption.
   - destruct (is_eoc t (nthZ fat i)); [|discriminate]. inversion H1; inversion H2; subst. reflexivity.
 Qed.
-Lemma chain_go_suffix f : forall t fat i l, chain_go f t fat i = (l, true) ->
-  forall k, (k < length l)%nat -> exists f', chain_go f' t fat (nth k l 0) = (skipn k l, true).
+Lemma chain_go_suffix f : forall t dm fat i l, chain_go f t dm fat i = (l, true) ->
+  forall k, (k < length l)%nat -> exists f', chain_go f' t dm fat (nth k l 0) = (skipn k l, true).
 Proof.
-  induction f as [|g IH]; intros t fat i l H k Hk; [discriminate|].
+  induction f as [|g IH]; intros t dm fat i l H k Hk; [discriminate|].
   pose proof H as H0. cbn [chain_go] in H. destruct ((i <? Gen.MIN_DATA_CLUSTER t) || (lenZ fat <=? i)); [discriminate|]. cbv zeta in H.
-  destruct (is_data t (nthZ fat i)).
-  - destruct (chain_go g t fat (nthZ fat i)) as [r o] eqn:E. inversion H; subst. destruct k as [|j].
+  destruct (is_data t dm (nthZ fat i)).
+  - destruct (chain_go g t dm fat (nthZ fat i)) as [r o] eqn:E. inversion H; subst. destruct k as [|j].
     + exists (S g). exact H0.
     + cbn [nth skipn]. eapply IH; [exact E|]. cbn [length] in Hk. lia.
   - destruct (is_eoc t (nthZ fat i)); [|discriminate]. inversion H; subst. destruct k as [|j]; [|cbn in Hk; lia].
     exists (S g). exact H0.
 Qed.
-Theorem chain_go_nodup f : forall t fat i l, chain_go f t fat i = (l, true) -> NoDup l.
+Theorem chain_go_nodup f : forall t dm fat i l, chain_go f t dm fat i = (l, true) -> NoDup l.
 Proof.
-  induction f as [|g IH]; intros t fat i l H; [discriminate|].
+  induction f as [|g IH]; intros t dm fat i l H; [discriminate|].
   pose proof H as H0. cbn [chain_go] in H. destruct ((i <? Gen.MIN_DATA_CLUSTER t) || (lenZ fat <=? i)); [discriminate|]. cbv zeta in H.
-  destruct (is_data t (nthZ fat i)).
-  - destruct (chain_go g t fat (nthZ fat i)) as [r o] eqn:E. inversion H; subst. constructor; [|eapply IH; exact E].
+  destruct (is_data t dm (nthZ fat i)).
+  - destruct (chain_go g t dm fat (nthZ fat i)) as [r o] eqn:E. inversion H; subst. constructor; [|eapply IH; exact E].
     intros Hin. destruct (In_nth r i 0 Hin) as (k & Hk & Hnth).
-    destruct (chain_go_suffix g t fat _ r E k Hk) as (f' & Hs). rewrite Hnth in Hs.
-    pose proof (chain_go_fuel_indep _ _ _ _ _ _ _ H0 Hs) as Heq.
+    destruct (chain_go_suffix g t dm fat _ r E k Hk) as (f' & Hs). rewrite Hnth in Hs.
+    pose proof (chain_go_fuel_indep _ _ _ _ _ _ _ _ H0 Hs) as Heq.
     apply (f_equal (@length Z)) in Heq. cbn [length] in Heq. rewrite skipn_length in Heq. lia.
   - destruct (is_eoc t (nthZ fat i)); [|discriminate]. inversion H; subst. constructor; [intros []|constructor].
 Qed.
@@ -250,10 +250,10 @@ Proof.
     destruct E as (Hd' & d & l' & ->). split; [exact Hd'|repeat split].
   - inversion Ha; subst. split; [exact Hd|repeat split].
 Qed.
-Lemma chain_go_nonempty f t fat i l : chain_go f t fat i = (l, true) -> l <> [].
+Lemma chain_go_nonempty f t dm fat i l : chain_go f t dm fat i = (l, true) -> l <> [].
 Proof.
-  destruct f; [discriminate|]. cbn [chain_go]. destruct (_ || _); [discriminate|]. cbv zeta. destruct (is_data _ _).
-  - destruct (chain_go f t fat _). intros H; inversion H. discriminate.
+  destruct f; [discriminate|]. cbn [chain_go]. destruct (_ || _); [discriminate|]. cbv zeta. destruct (is_data _ _ _).
+  - destruct (chain_go f t dm fat _). intros H; inversion H. discriminate.
   - destruct (is_eoc _ _); [|discriminate]. intros H; inversion H. discriminate.
 Qed.
 
